@@ -14,6 +14,7 @@
 EXTENDS IndexOps, TLC, Json
 
 CONSTANTS MinSteps, MaxSteps,
+          CommonU, CommonV,   \* value classes of the extra (weighting) append actions of the random walks
           Volume      \* TRUE: also offer the macro calls appendn / catn (many Records / Streams at once)
 VARIABLES st, hist, done
 vars == <<st, hist, done>>
@@ -64,8 +65,8 @@ Finish == ~done /\ Len(hist) >= MinSteps /\ done' = TRUE /\ UNCHANGED <<st, hist
 Next == \/ Running /\ \E o \in CandInit(st) : Do(o)
         \/ Running /\ \E o \in CandEnd(st) : Do(o)
         \/ Running /\ \E o \in CandAppend(st) : Do(o)
-        \/ Running /\ \E o \in CandAppendOf(st, SmallU, SmallV) : Do(o)       \* small Records: the common case
-        \/ Running /\ \E o \in CandAppendOf(st, SmallU, SmallV) : Do(o)
+        \/ Running /\ \E o \in CandAppendOf(st, CommonU, CommonV) : Do(o)       \* small Records: the common case
+        \/ Running /\ \E o \in CandAppendOf(st, CommonU, CommonV) : Do(o)
         \/ Running /\ \E o \in CandFlags(st) : Do(o)
         \/ Running /\ \E o \in CandPadding(st) : Do(o)
         \/ Running /\ \E o \in CandCat(st) : Do(o)
